@@ -12,7 +12,7 @@ from sa.variants import Variant, replace_once, sub_first, sub_once
 from .c06 import check_qualifiers
 from .c07 import check_cache_invalidation
 from .c12 import check_validate_first
-from .common import call_names, norm_atom, template_methods
+from .common import call_names, norm_atom, template_methods, vars_from_call
 
 ID = "C08"
 EXPLANATION = (
@@ -50,6 +50,7 @@ def run(ctx) -> None:
     rep.rule("C08.R5", "missing inputs are reported by raising MissingInputError", floor=2)
     rep.rule("C08.R6", "inner bound values enter the specification only under inputs of their wrapper", floor=2)
     rep.rule("C08.R7", "a node counts as bypassed only if a non-empty set of its outputs is provided", floor=2)
+    rep.rule("C08.R10", "validation matches supplied entry points per cycle with the same decomposition (strongly connected components of the data-only graph) that the reported specification lists them by", floor=2)
     rep.rule("C08.R9", "a run-time recomputation of the specification is fed the same raw graph state as the cached one", floor=1)
     rep.rule("C08.R8", "every reduction of the required set that validation derives from bound values alone is also made by the reported specification", floor=1)
 
@@ -243,6 +244,41 @@ def run(ctx) -> None:
     rep.add("C08.R6", f"{cb.qname}:keys-are-wrapper-inputs", ok, cb.loc(), why)
     check_inner_bound_merge_complete(ctx, "C08.R6")
     check_spec_recomputation_inputs(ctx, "C08.R9")
+    check_cycle_decomposition_agrees(ctx, "C08.R10")
+
+
+def check_cycle_decomposition_agrees(ctx, rule: str) -> None:
+    """Writer (graph/input_spec._compute_entrypoints) and reader (validation._group_entrypoints_by_scc) of the
+    entry-point table use the same partition of the graph into cycles: nx.strongly_connected_components of
+    _data_only_subgraph(...).  With any finer partition (simple cycles) two loops sharing a node form two groups
+    and supplying one listed entry point's parameters is rejected for the other group."""
+    db, rep = ctx.db, ctx.rep
+    w = db.func("graph.input_spec._compute_entrypoints")
+    r = db.func("runners._shared.validation._group_entrypoints_by_scc")
+
+    def scc_vars(f):
+        dvars = set(vars_from_call(db, f, {"_data_only_subgraph"}))
+        out = set()
+        for nm, ds in db.local_defs(f).items():
+            for d in ds:
+                v = getattr(d, "value", None)
+                if v is None:
+                    continue
+                for c in ast.walk(v):
+                    if isinstance(c, ast.Call) and (dotted(c.func) or "").endswith("strongly_connected_components") and c.args and isinstance(c.args[0], ast.Name) and c.args[0].id in dvars:
+                        out.add(nm)
+        return out
+
+    wv, rv = scc_vars(w), scc_vars(r)
+    okw = bool(wv) and any(isinstance(lp, ast.For) and any(isinstance(x, ast.Name) and x.id in wv for x in ast.walk(lp.iter)) for lp in walk_local(w.node))
+    rep.add(rule, f"{w.qname}:per-scc", okw, w.loc(), "entry points are listed per strongly connected component of the data-only graph" if okw else "the specification no longer lists entry points per strongly connected component of the data-only graph")
+    okr = bool(rv)
+    if okr:
+        # the node -> group index is filled from that decomposition
+        fills = [lp for lp in walk_local(r.node) if isinstance(lp, ast.For) and any(isinstance(x, ast.Name) and x.id in rv for x in ast.walk(lp.iter))]
+        other = [c for c in db.calls_in(r) if (dotted(c.func) or "").split(".")[-1] in ("simple_cycles", "cycle_basis", "find_cycle", "weakly_connected_components", "condensation")]
+        okr = bool(fills) and not other
+    rep.add(rule, f"{r.qname}:same-decomposition", okr, r.loc(), "supplied entry points are grouped by the same strongly connected components" if okr else "supplied entry points are grouped by a different decomposition than the one the specification lists them by (e.g. simple cycles): for two loops sharing a node, one listed entry point's parameters no longer satisfy 'one entry point per cycle' — a sufficient input set is rejected")
 
 
 def check_default_existential(ctx, rule: str) -> None:
